@@ -4,6 +4,8 @@ signature functions for known findings, trusted-base notes."""
 
 def sig_c11(rec):
     case = rec.get("case") or {}
+    if rec.get("family") == "multi":
+        return "multi:size=%s:ops=%s:created=%s" % (case.get("size"), case.get("ops"), case.get("entries_created"))
     size = case.get("size")
     if case.get("kind"):
         return "lru:%s:%s->%s" % (case.get("kind"), case.get("size_before"), case.get("size_after"))
@@ -25,6 +27,8 @@ def sig_c03(rec):
 
 def sig_c14(rec):
     case = rec.get("case") or {}
+    if rec.get("family") == "edge":
+        return "edge:%s:%s" % (case.get("kind"), case.get("host") or case.get("url") or "")
     return "route:" + str(case.get("locations"))[:200]
 
 
@@ -62,7 +66,7 @@ def sig_c09(rec):
     return "codec:record " + str(case.get("record_hex"))[:80]
 
 
-FLIGHT_COMPONENTS = ["mismatch", "monitor:C01", "monitor:C02+C10", "monitor:C03", "monitor:C04+C08+C20", "monitor:C07", "monitor:C18+C10", "monitor:C10+C20"]
+FLIGHT_COMPONENTS = ["mismatch", "monitor:C01", "monitor:C02+C10", "monitor:C03", "monitor:C04+C08+C20", "monitor:C07", "monitor:C18+C10+C08", "monitor:C10+C20"]
 
 
 def flight_family(quick, thorough, search):
@@ -224,6 +228,7 @@ PROPS = {
         "families": {"flight": flight_family(120, 1500, 300), "wakeup": WAKEUP_FAMILY, "choreo": CHOREO_FAMILY,
                      "negotiate": {"quick": 300, "thorough": 8000, "search": 3000, "components": NEGOTIATE_COMPONENTS},
                      "reload": {"quick": 90, "thorough": 1800, "search": 450, "no_cases": True},
+                     "keys": {"quick": 120, "thorough": 600, "search": 200},
                      "racestress": RACESTRESS_FAMILY},
         "signature": sig_c20,
         "trusted_base": SYS_TRUST + [
@@ -242,7 +247,7 @@ PROPS = {
                     extra={"maxage": {"quick": 1500, "thorough": 30000, "search": 6000}}),
     "C07": sys_prop(["hit-for-pass period in whole seconds as converted by cache.convertConfigs"],
                     "step-level theorems: marks, immediate pass without queueing, own answer, lapse; three simultaneous passes exhibited.",
-                    extra={"edge": {"quick": 2, "thorough": 40, "search": 6, "no_cases": True}}),
+                    with_choreo=True, extra={"edge": {"quick": 2, "thorough": 40, "search": 6, "no_cases": True}}),
     "C08": sys_prop(["store Set/Get/Delete are atomic per key and Get returns the last successful Set or not-found (badger transactions: trusted); process start-up and badger recovery are runtime behaviour outside the model",
                      "restarts are exercised in-process at quiescent points (fresh dispatcher on the same store)"],
                     "provenance invariant with Crash anywhere in the label sequence; restored hit = original response, original creation time, within original expiry.", with_stress=True,
@@ -258,7 +263,7 @@ PROPS = {
     "C02": sys_prop(["every upstream exchange eventually ends (the proxy timeout turns silence into a 504): upstream steps are always-enabled environment steps"],
                     "no_deadlock + strictly decreasing well-founded measure + final_clean over all label sequences.", with_wakeup=True, with_choreo=True,
                     # real parallelism: hits reading their age while other requests enter Get on the same entry
-                    extra={"keys": {"quick": 30, "thorough": 300, "search": 60}}),
+                    extra={"keys": {"quick": 30, "thorough": 300, "search": 60}, "edge": {"quick": 2, "thorough": 40, "search": 6, "no_cases": True}}),
     "C01": {
         "families": {"flight": flight_family(120, 1500, 300), "wakeup": WAKEUP_FAMILY, "choreo": CHOREO_FAMILY,
                      # requests on other keys: the shard a key maps to must not depend on concurrent traffic
@@ -302,8 +307,9 @@ PROPS = {
         "explanation": "upstream answer -> consistent response -> (store) -> serve: decoded body, acceptable encoding, status and headers preserved, for all inputs and settings.",
     },
     "C06": {
-        "families": {"keys": {"quick": 120, "thorough": 2500, "search": 800}, "edge": {"quick": 2, "thorough": 40, "search": 6, "no_cases": True}},
-        "signature": lambda rec: ("edge:" + str((rec.get("case") or {}).get("kind"))) if rec.get("family") == "edge" else "keys:" + str((rec.get("case") or {}).get("same_key", (rec.get("case") or {}).get("first_requests")))[:160],
+        "families": {"keys": {"quick": 120, "thorough": 2500, "search": 800}, "edge": {"quick": 2, "thorough": 40, "search": 6, "no_cases": True},
+                     "multi": {"quick": 15, "thorough": 300, "search": 100, "components": ["mismatch", "monitor:C11", "monitor:C06"]}},
+        "signature": lambda rec: sig_c11(rec) if rec.get("family") == "multi" else ("edge:" + str((rec.get("case") or {}).get("kind"))) if rec.get("family") == "edge" else "keys:" + str((rec.get("case") or {}).get("same_key", (rec.get("case") or {}).get("first_requests")))[:160],
         "trusted_base": [
             "model coq/Model/Key.v (getKey) and Dispatcher.v are hand-written; tied by the keys family (exact key bytes; entry identity under forced shard collisions and evictions)",
             "space-free method and host are net/http's request-parsing guarantee (hypothesis of key_injective; shown necessary by C06_guard_needed)",
@@ -313,7 +319,7 @@ PROPS = {
         "explanation": "key_injective + lookup_exact (any hash, any history); the system-level no-cross-serve statement is proved over the entry-protocol model (Properties/C01.v ff.).",
     },
     "C14": {
-        "families": {"route": {"quick": 400, "thorough": 12000, "search": 4000}},
+        "families": {"route": {"quick": 400, "thorough": 12000, "search": 4000}, "edge": {"quick": 2, "thorough": 40, "search": 6, "no_cases": True}},
         "signature": sig_c14,
         "trusted_base": [
             "model coq/Model/Location.v is hand-written from location/location.go (Match, getPriority, Set, Get); sort.Slice is modelled as *any* priority-ordered permutation in the theorems and as a stable insertion sort in the executable comparison (projected on found?/class)",
@@ -332,10 +338,12 @@ PROPS = {
     },
     "C11": {
         "families": {"lru": {"quick": 64, "thorough": 400, "search": 100,
-                              "components": ["mismatch", "monitor", "monitor:C11", "mismatch:C11"]}},
+                              "components": ["mismatch", "monitor", "monitor:C11", "mismatch:C11"]},
+                     "multi": {"quick": 30, "thorough": 600, "search": 150, "components": ["mismatch", "monitor:C11", "monitor:C06"]}},
         "signature": sig_c11,
         "trusted_base": [
             "model coq/Model/LRU.v + Dispatcher.v is hand-written from groupcache/lru and cache/dispatcher.go; tied by the lru family (entry identity + per-op resident counts) and by the constants regenerated from NewDispatcher",
+            "the composed model coq/Model/Multi.v (dispatcher + one entry protocol per key) is tied by the multi family: many keys through the real dispatcher and the real entries, one operation at a time (requests, completions incl. on evicted entries, purges)",
             "runtime memhash is an arbitrary function in the theorems; the harness passes the observed hash of every key to the model",
         ],
         "assumptions": ["sync.Mutex gives mutual exclusion per shard (ops modelled as atomic steps)",
